@@ -151,7 +151,14 @@ def handleC10 (j : Json) : Except String Json := do
     | none => db
   let full := orderBy c10NumLe keys sel
   let w := sliceChain cfg full {} slices
-  let result := run c10Ops c10NumLe cfg db pred keys slices
+  let last ← match j.getObjVal? "step_slice" with
+    | .ok (Json.arr a) => do
+        if a.size != 3 then throw "bad step slice"
+        match ← c10OptInt a[2]! with
+        | some st => pure (some ((← c10OptInt a[0]!), (← c10OptInt a[1]!), st))
+        | none => throw "step slice without step"
+    | _ => pure none
+  let result := runStep c10Ops c10NumLe cfg db pred keys slices last
   let rowsSel := match pred with
     | some p => (rowsQueryFits c10Ops rows (compileTop cfg p) sdb).map (·.fit)
     | none => db
